@@ -194,37 +194,42 @@ def run(ctx):
         ctx.ob("C16.4", "%s|bad-header-is-WrongHeader|%d" % (g.id, i), "an unparsable header line makes read() fail with WrongHeader", ok, g.loc(bb))
 
     # ---- C16.5 framing header lookup
-    lookups = {}
-    for cl in facts.find_fns(r"^request::new_request::\{closure"):
-        for bb, t in cl.calls():
-            if call_matches(t, r"common::HeaderField::equiv$"):
-                lit = [c for c in arg_consts(cl, t) if isinstance(c, str)]
-                if lit:
-                    lookups[lit[0]] = cl.id
+    lookups, te_tests, CLl = shared.te_precedence(ctx, "C16.5", "TE-disables-CL")
     for name in ("Transfer-Encoding", "Content-Length"):
         ctx.ob("C16.5", "%s|lookup-%s" % (nr.id, name), "%s is looked up case-insensitively (HeaderField::equiv)" % name, name in lookups, "%s:%d" % (nr.file, nr.line))
-    finds = [(bb, t) for bb, t in nr.calls() if call_matches(t, r"as std::iter::Iterator>::find::<")]
-    for bb, t in finds:
-        clo = nr.origin(t["args"][1])
-        if clo[0] == "agg" and clo[1] in lookups.values():
-            name = [k for k, v in lookups.items() if v == clo[1]][0]
-            if name in ("Transfer-Encoding", "Content-Length"):
-                recv = nr.origin(t["args"][0])
-                ok = origin_has_call(recv, r"<impl \[common::Header\]>::iter$|<impl \[T\]>::iter$") and not origin_has_call(recv, r"::rev$|::skip")
-                ctx.ob("C16.5", "%s|first-%s" % (nr.id, name), "the first %s header in arrival order is the one used" % name, ok, nr.loc(bb), origin_str(recv))
-    # TE disables CL
-    te_tests = [(bb, t) for bb, t in nr.calls() if call_matches(t, r"Option::<T>::is_some$|Option::<T>::is_none$")]
-    cl_find = [bb for bb, t in finds if nr.origin(t["args"][1])[0] == "agg" and lookups.get("Content-Length") == nr.origin(t["args"][1])[1]]
-    ok = False
-    for bb, t in te_tests:
-        o = nr.origin(t["args"][0])
-        if origin_has_call(o, r"Iterator>::find") and t.get("target") is not None:
-            bs = bool_switch(nr, t["target"])
-            if bs and cl_find:
-                absent_edge = bs[2] if t["name"] == "is_some" else bs[1]
-                if all(nr.dominates(absent_edge, c, unwind=False) for c in cl_find):
-                    ok = True
-    ctx.ob("C16.5", "%s|TE-disables-CL" % nr.id, "Content-Length is consulted only when no Transfer-Encoding header exists", ok, "%s:%d" % (nr.file, nr.line))
+    # first occurrence decides: either Iterator::find, or a forward loop that keeps the first value (get_or_insert)
+    for name in ("Transfer-Encoding", "Content-Length"):
+        okf = False
+        how = None
+        for bb, t in nr.calls():
+            if call_matches(t, r"Iterator>?::(find|filter)(::<|$)") and len(t["args"]) > 1:
+                clo = nr.origin(t["args"][1])
+                if clo[0] == "agg" and clo[1] in lookups.get(name, []):
+                    recv = nr.origin(t["args"][0])
+                    fwd = origin_has_call(recv, r"<impl \[common::Header\]>::iter$|<impl \[T\]>::iter$") and not origin_has_call(recv, r"::rev$|::skip")
+                    if t["name"] == "find" and fwd:
+                        okf, how = True, "find"
+                    if t["name"] == "filter" and fwd:
+                        keeps_first = any(call_matches(t2, r"Option::<T>::get_or_insert(_with)?$") for b2, t2 in nr.calls())
+                        overwrites = False
+                        if keeps_first:
+                            okf, how = True, "filter + get_or_insert"
+        ctx.ob("C16.5", "%s|first-%s" % (nr.id, name), "the first %s header in arrival order is the one used" % name, okf, "%s:%d" % (nr.file, nr.line), how)
+    # ---- C16.3(c) every Content-Length value is validated, unconditionally
+    for k, (h, bb, t) in enumerate(parses):
+        if h.id != nr.id:
+            ctx.ob("C16.3", "%s|content-length-every-occurrence|%d" % (h.id, k), "every Content-Length header of a request is validated (not only the first one)", False, h.loc(bb),
+                   "the value is parsed inside a first-match lookup (`find`): a second Content-Length header, or one next to Transfer-Encoding, is never looked at")
+            continue
+        in_loop = h.in_loop(bb)
+        filt = [b2 for b2, t2 in h.calls() if call_matches(t2, r"Iterator>?::filter(::<|$)") and len(t2["args"]) > 1 and h.origin(t2["args"][1])[0] == "agg"
+                and h.origin(t2["args"][1])[1] in lookups.get("Content-Length", [])]
+        ok_all = in_loop and bool(filt) and all(h.dominates(b2, bb, unwind=False) for b2 in filt)
+        ctx.ob("C16.3", "%s|content-length-every-occurrence|%d" % (h.id, k), "every Content-Length header of a request is validated (not only the first one)", ok_all, h.loc(bb),
+               None if ok_all else "the numeric check is not inside a loop over all headers named Content-Length")
+        cond = [1 for _, pres, absent in te_tests if h.dominates(pres, bb, unwind=False) or h.dominates(absent, bb, unwind=False)]
+        ctx.ob("C16.3", "%s|content-length-validated-regardless-of-TE|%d" % (h.id, k), "a malformed Content-Length is rejected even when a Transfer-Encoding header is present", not cond, h.loc(bb),
+               None if not cond else "the validation only runs on one side of the Transfer-Encoding test")
     return {}
 
 
